@@ -92,6 +92,13 @@ CLAIMED = {
         "Witness principle (one-sided sound); estimator-level variance models use one-hot sources so that captures equal filter values.",
         "DESIGN.md section 6 C09",
     ),
+    "C10": (
+        "Hypothesis property-based testing against an explicit HiGHS LP over (X, s0, s1): feasibility, the 'max' optimum, a first-order optimality certificate for 'unity'; per-sample identities checked directly",
+        "Generated finite-bound systems x target sets of 1-50 samples from well inside to far outside x neutral point x objective x scale weights x deltas x solver, plus default-argument calls; "
+        "an exception is accepted only when the LP is infeasible.",
+        "Trusts HiGHS; the scales are asserted to the accuracy implied by the solver's objective tolerance (sqrt(tol)/w).",
+        "DESIGN.md section 6 C10",
+    ),
 }
 
 PENDING_REASON = "check not built yet in this revision (planned, see DESIGN.md section 6); not claimed until its check runs quietly on the unchanged tree"
